@@ -8,8 +8,9 @@ import scenes as S
 import pipeline as P
 
 NOT_CARRIED = [
-    "the hypothesis linking a point's two roles (receiver factor = 4 x source share / area) follows from the two "
-    "modes of pt_solution (C04) and is checked numerically by the search, not re-proved here",
+    "the link between a point's two roles (receiver factor = 4 x source share / area) IS proved for the model of "
+    "pt_solution (C09_roles_linked); that the point's visibility is the same in both roles is an input of "
+    "C09_model (it is C07's symmetric line of sight) and is checked by the search",
     "histograms too short for the delayed patch energy (np.roll wrap, known finding C02/receiver_wrap) are outside "
     "C09_model's 'fits' hypothesis; the search uses windows holding every arrival",
 ]
